@@ -11,7 +11,7 @@
                                                            -> header_record, header_parse, header_new, ...
      EltoritoBootCatalog.record/.new/.add_section/.parse   -> cat_record, cat_new, cat_add_section,
                                                               cat_parse_step
-     PyCdlib._check_and_parse_eltorito (read(32) loop)     -> read32, parse_units, parse_catalog_extent
+     PyCdlib._check_and_parse_eltorito (read(32) loop)     -> read32, parse_units, parse_zeros, parse_catalog_extent
                                                               (parse_catalog: the same loop fed from a string)
      EltoritoBootInfoTable.record/.parse/.new              -> bit_record, bit_parse, mk_bit
      PyCdlib._calculate_eltorito_boot_info_table_csum      -> bit_csum
@@ -354,20 +354,23 @@ Definition cat_parse_step (st : pstate) (valstr : list Z) : option (pstate * boo
       end
   end.
 
-(* The caller's loop `while not catalog.parse(data): data = <next 32-byte unit>` over the units a
-   reader supplies.  A reader that stops supplying units models an exception of the reader. *)
-Fixpoint parse_units (units : list (list Z)) (st : pstate) : option et_catalog :=
+(* what the caller's loop returns once parse has returned True *)
+Definition finish (st : pstate) : option et_catalog :=
+  match st with
+  | PSections v i secs sa => Some (mk_cat v i secs sa)
+  | _ => None
+  end.
+
+(* The caller's loop `while not catalog.parse(data): data = <next 32-byte unit>` over the units
+   read from the image; [after] says what happens when these are used up. *)
+Fixpoint parse_units (after : pstate -> option et_catalog) (units : list (list Z)) (st : pstate)
+  : option et_catalog :=
   match units with
-  | [] => None
+  | [] => after st
   | u :: r =>
       match cat_parse_step st u with
       | None => None
-      | Some (st', done) =>
-          if done then match st' with
-                       | PSections v i secs sa => Some (mk_cat v i secs sa)
-                       | _ => None
-                       end
-          else parse_units r st'
+      | Some (st', done) => if done then finish st' else parse_units after r st'
       end
   end.
 
@@ -382,7 +385,18 @@ Fixpoint read32 (n : nat) (data : list Z) : list (list Z) :=
    commit 351102c; still the meaning of "parse this string").  A read at the end returns b'' and
    parse then raises; every unit consumes input or fails, so S (length data) units are enough. *)
 Definition parse_catalog (data : list Z) : option et_catalog :=
-  parse_units (read32 (S (length data)) data) PExpectVal.
+  parse_units (fun _ => None) (read32 (S (length data)) data) PExpectVal.
+
+(* the synthetic units `data = b'\x00' * 32` *)
+Fixpoint parse_zeros (fuel : nat) (st : pstate) : option et_catalog :=
+  match fuel with
+  | O => None
+  | S f =>
+      match cat_parse_step st (repeat 0 32) with
+      | None => None
+      | Some (st', done) => if done then finish st' else parse_zeros f st'
+      end
+  end.
 
 (* PyCdlib._check_and_parse_eltorito as it is now:
      num_left = logical_block_size // 32 ; data = fp.read(32) ; num_left -= 1
@@ -392,10 +406,10 @@ Definition parse_catalog (data : list Z) : option et_catalog :=
    i.e. at most 64 units are read from the image ([data] = the image from the catalog's extent on),
    then synthetic zero units.  A zero unit ends the parse, or raises, or is taken as one of the at
    most 65535 entries the last header still expects (+2 for the validation / initial states), so
-   65538 zero units are never exhausted. *)
+   the fuel of 65538 zero units is never exhausted. *)
 Definition zero_units : nat := Z.to_nat 65538.
 Definition parse_catalog_extent (data : list Z) : option et_catalog :=
-  parse_units (read32 64 data ++ repeat (repeat 0 32) zero_units) PExpectVal.
+  parse_units (parse_zeros zero_units) (read32 64 data) PExpectVal.
 
 (* -- well-formedness -- *)
 Definition section_ok (h : et_header) : bool :=
